@@ -25,6 +25,12 @@ type C15Case struct {
 	// Join: the first two values also meet as keys of one-row tables in an equi join, in both plans: the rows
 	// pair exactly when the two values are equal in the stated order ("the comparison used by ... joins")
 	Join bool `json:"join,omitempty"`
+	// Order: "" = no sort route; "k" = "ORDER BY k" (ascending by default), "ASC", "DESC": the first two values are the
+	// key column of a TWO-row table (both input orders) and ORDER BY k must put them in the stated order ("the
+	// comparison used by ... ORDER BY"); values of one kind (all of Vals, then More) also form one n-row table,
+	// whose output must be sorted, as the order is transitive within a kind
+	Order string `json:"order,omitempty"`
+	More  []TV   `json:"more,omitempty"` // further key values of the kind of Vals, for the n-row table only
 }
 
 // wide 64-bit integers: exact as integers, not as float64 - compared with integers and strings only
@@ -366,8 +372,11 @@ func c15Exhaustive(st *Stats) (string, any) {
 	return "", nil
 }
 
-func genTV(t *rapid.T, label string) TV {
-	kind := rapid.IntRange(0, 13).Draw(t, label+".kind")
+func genTV(t *rapid.T, label string) TV { return genTVIn(t, label, 0, 13) }
+
+// genTVIn draws a typed value whose kind index lies in kindLo..kindHi: 0..11 = the numeric types of c15Types, 12..13 = string.
+func genTVIn(t *rapid.T, label string, kindLo, kindHi int) TV {
+	kind := rapid.IntRange(kindLo, kindHi).Draw(t, label+".kind")
 	if kind >= 12 {
 		alpha := []string{"0", "1", "2", "5", "9", ".", "-", "a", "A", "b", "e", "+", " "}
 		n := rapid.IntRange(0, 5).Draw(t, label+".len")
@@ -454,7 +463,73 @@ func genC15(t *rapid.T) any {
 			c.Vals[1-i] = TV{"string", c15Text(v)}
 		}
 	}
+	// the ORDER BY route: three cases in eight; half of those whose values are of one kind get up to 12 more rows
+	c.Order = rapid.SampledFrom([]string{"", "", "", "", "", "k", "ASC", "DESC"}).Draw(t, "order")
+	if c.Order != "" {
+		oneKind := true
+		for _, tv := range c.Vals[1:] {
+			oneKind = oneKind && (tv.T == "string") == (c.Vals[0].T == "string")
+		}
+		if oneKind && rapid.Bool().Draw(t, "more") {
+			lo, hi := 0, 11
+			if c.Vals[0].T == "string" {
+				lo, hi = 12, 13
+			}
+			n := rapid.IntRange(1, 12).Draw(t, "more.n")
+			for i := 0; i < n; i++ {
+				c.More = append(c.More, genTVIn(t, fmt.Sprintf("more%d", i), lo, hi))
+			}
+		}
+	}
 	return c
+}
+
+// c15Sorted runs "SELECT id, k FROM ta ORDER BY k [ASC|DESC]" over one row per key (id = position in keys) and returns
+// a violation text unless the output is a permutation of the rows in which every row's key is <= (DESC: >=) its
+// successor's in the stated order; rows whose keys are equal may come in either order. The caller passes keys on
+// which the stated order is specified pairwise and transitive (two keys of any kinds, or n keys of one kind).
+func c15Sorted(keys []any, order string) string {
+	sql := "SELECT id, k FROM ta ORDER BY k"
+	if order != "k" {
+		sql += " " + order
+	}
+	rows := make([]any, len(keys))
+	var desc []string
+	for i, k := range keys {
+		rows[i] = map[string]any{"id": i, "k": k}
+		desc = append(desc, c15Desc(k))
+	}
+	out := Run(map[string]any{"ta": rows}, sql, Opts{})
+	fail := func(why string) string {
+		return fmt.Sprintf("%s over ta.k = [%s] (id = position)\n  %s\n  got %s", sql, strings.Join(desc, ", "), why, out.Describe())
+	}
+	if !out.OK() {
+		return fail("the query must succeed")
+	}
+	if len(out.Raw) != len(keys) {
+		return fail(fmt.Sprintf("ORDER BY must return the %d rows", len(keys)))
+	}
+	ids := make([]int, len(out.Raw))
+	seen := make([]bool, len(keys))
+	for i, r := range out.Raw {
+		m, _ := r.(map[string]any)
+		x := c15Rat(m["id"])
+		if x == nil || !x.IsInt() || !x.Num().IsInt64() || x.Num().Int64() < 0 || x.Num().Int64() >= int64(len(keys)) || seen[x.Num().Int64()] {
+			return fail("the output must be a permutation of the rows")
+		}
+		ids[i] = int(x.Num().Int64())
+		seen[ids[i]] = true
+	}
+	for i := 0; i+1 < len(ids); i++ {
+		cmp := c15Expected(keys[ids[i]], keys[ids[i+1]])
+		if order == "DESC" {
+			cmp = -cmp
+		}
+		if cmp > 0 {
+			return fail(fmt.Sprintf("the order of the values says %d for %s against %s, yet the former comes right before the latter", c15Expected(keys[ids[i]], keys[ids[i+1]]), c15Desc(keys[ids[i]]), c15Desc(keys[ids[i+1]])))
+		}
+	}
+	return ""
 }
 
 func checkC15(c *C15Case) Result {
@@ -576,6 +651,39 @@ func checkC15(c *C15Case) Result {
 			}
 		}
 	}
+	if c.Order != "" && c15Specified(vals[0], vals[1]) {
+		res.Labels = append(res.Labels, "order-by-pair", "order-by:"+c.Order)
+		for _, keys := range [][]any{{vals[0], vals[1]}, {vals[1], vals[0]}} {
+			res.Execs++
+			if v := c15Sorted(keys, c.Order); v != "" {
+				res.Violation = v
+				return res
+			}
+		}
+	}
+	if c.Order != "" && len(vals)+len(c.More) > 2 {
+		// the n-row table: keys of one kind on which the stated order is specified pairwise
+		keys := append([]any{}, vals...)
+		ok := true
+		for _, tv := range c.More {
+			v, fits := tv.goValue()
+			ok = ok && fits
+			keys = append(keys, v)
+		}
+		for i := 0; ok && i < len(keys); i++ {
+			for j := 0; j < i; j++ {
+				ok = ok && sameKind(keys[i], keys[j]) && c15Specified(keys[i], keys[j])
+			}
+		}
+		if ok {
+			res.Labels = append(res.Labels, fmt.Sprintf("order-by-rows:%d", (len(keys)+3)/4*4))
+			res.Execs++
+			if v := c15Sorted(keys, c.Order); v != "" {
+				res.Violation = v
+				return res
+			}
+		}
+	}
 	if len(vals) == 3 && sameKind(vals[0], vals[1]) && sameKind(vals[1], vals[2]) {
 		res.Labels = append(res.Labels, "triple")
 		perms := [][3]int{{0, 1, 2}, {0, 2, 1}, {1, 0, 2}, {1, 2, 0}, {2, 0, 1}, {2, 1, 0}}
@@ -596,7 +704,7 @@ func init() {
 		Rule: "part 1 (exhaustive, every run): a finite representative domain - for each of the 12 Go numeric types the boundary values " +
 			"(min, -129..-128, -2..2, 10, 127/128, 255/256, 32767/32768, 65535/65536, 2^31-1/2^31, 2^32-1/2^32, +-2^53 where representable), " +
 			"fractions for the float types, and 19 strings (empty, numeric-looking, prefixes, case pairs, multi-byte) - all ordered pairs and " +
-			"all same-kind ordered triples; part 2: rapid draws pairs/triples of random typed values (64-bit boundary integers beyond 2^53 against integers and strings; a quarter of the pairs also meet as keys of one-row tables in JOIN and HASH_JOIN, which must pair them iff they are equal; any type, " +
+			"all same-kind ordered triples; part 2: rapid draws pairs/triples of random typed values (64-bit boundary integers beyond 2^53 against integers and strings; a quarter of the pairs also meet as keys of one-row tables in JOIN and HASH_JOIN, which must pair them iff they are equal; three in eight also meet as the key column of a two-row table under ORDER BY k [ASC|DESC] (both input orders; the output must be a permutation with the smaller key first, equal keys in either order), and values of one kind also as one table of 3..15 rows whose output must be sorted; any type, " +
 			"small-magnitude bias, neighbours +-1 of the first value). Oracle: exact rational comparison (math/big) for number/number, " +
 			"strings.Compare for string/string and decimal-text/string; result in {-1,0,1}; reflexive; antisymmetric; transitive within kind. " +
 			"Non-trivial: operands of different Go types.",
